@@ -1,0 +1,44 @@
+//go:build verif
+
+package unixsocket
+
+// Contracts for gocv (see /verif/DESIGN.md). Comment-only; compiled only with
+// the build tag "verif". Model S (what recvmsg installs) is in /verif/spec/socket_S.contracts.
+
+// C19: a received message is either delivered with exactly the descriptors that arrived, or rejected
+// with every arrived descriptor closed.
+
+//@ global pkg/unixsocket.errMessageTruncated props C19: invariant errMessageTruncated != nil
+
+//@ macro all_arrived_closed() = forall k int :: 0 <= k && k < S.nrights ==> FD.closed[S.right[k]]
+
+//@ func pkg/unixsocket.parseMsg props C19 C12
+//@   arith int
+//@   assigns FD.closed
+//@   ensures err != nil ==> len(msg.Fds) == 0
+//@   ensures err != nil ==> all_arrived_closed() || (forall j int :: 0 <= j && j < len(msgs) ==> !(msgs[j].Header.Level == 1 && msgs[j].Header.Type == 1))
+//@   ensures err == nil ==> (len(msg.Fds) == S.nrights && forall k int :: 0 <= k && k < S.nrights ==> msg.Fds[k] == S.right[k])
+//@   ensures err == nil ==> forall d int :: FD.closed[d] == old(FD.closed[d])
+//@   requires S.nrights == 0 ==> forall j int :: 0 <= j && j < len(msgs) ==> !(msgs[j].Header.Level == 1 && msgs[j].Header.Type == 1)
+//@   requires S.nrights > 0 ==> exists j int :: 0 <= j && j < len(msgs) && msgs[j].Header.Level == 1 && msgs[j].Header.Type == 1
+//@   loop 0: invariant -1 <= rangeindex && rangeindex < len(msgs) && err == nil && forall d int :: FD.closed[d] == old(FD.closed[d])
+//@   loop 0: invariant (exists j int :: 0 <= j && j <= rangeindex && msgs[j].Header.Level == 1 && msgs[j].Header.Type == 1) ==> (len(msg.Fds) == S.nrights && forall k int :: 0 <= k && k < S.nrights ==> msg.Fds[k] == S.right[k])
+//@   loop 0: invariant !(exists j int :: 0 <= j && j <= rangeindex && msgs[j].Header.Level == 1 && msgs[j].Header.Type == 1) ==> len(msg.Fds) == 0
+
+//@ func pkg/unixsocket.parseMsg$1 props C19 C12
+//@   arith int
+//@   assigns FD.closed, msg.Fds
+//@   ensures err != nil ==> len(msg.Fds) == 0 && forall k int :: 0 <= k && k < len(old(msg.Fds)) ==> FD.closed[old(msg.Fds)[k]]
+//@   ensures err == nil ==> msg.Fds == old(msg.Fds) && forall d int :: FD.closed[d] == old(FD.closed[d])
+//@   ensures forall d int :: old(FD.closed[d]) ==> FD.closed[d]
+//@   loop 0: invariant -1 <= rangeindex && rangeindex < len(old(msg.Fds)) && msg.Fds == old(msg.Fds)
+//@   loop 0: invariant forall k int :: 0 <= k && k <= rangeindex ==> FD.closed[old(msg.Fds)[k]]
+//@   loop 0: invariant forall d int :: old(FD.closed[d]) ==> FD.closed[d]
+
+//@ func pkg/unixsocket.(*Socket).RecvMsg props C19 C12
+//@   arith int
+//@   requires s != nil && s.UnixConn != nil && len(s.recvBuff) == 4096
+//@   assigns all(b), all(s.recvBuff), S.nrights, S.right, FD.closed
+//@   ensures @C19 result.2 != nil ==> len(result.1.Fds) == 0 && all_arrived_closed()
+//@   ensures @C19 result.2 == nil ==> len(result.1.Fds) == S.nrights && forall k int :: 0 <= k && k < S.nrights ==> result.1.Fds[k] == S.right[k] && !FD.closed[S.right[k]]
+//@   ensures 0 <= result.0 && result.0 <= len(b)
